@@ -80,9 +80,20 @@ package ocidir
 //@ func (*OCIDir).updateIndex(r, d, child, locked) (err)
 //@   prop C06
 //@   requires lock-held-when-claimed: locked ==> $held(OCIDir.mu)
-//@ func (*OCIDir).referrerDelete
-//@   prop C06
+// C07 "repeating the interrupted operation brings the layout to the intended state": a manifest
+// delete that was interrupted after its referrer entry had been removed is repeatable because
+// ManifestDelete tolerates "not found" from referrerDelete - so the not-found that the referrer list
+// reports for an absent entry must reach ManifestDelete in a form errors.Is still recognises
+// (returned as it is, or wrapped with %w).
+//@ ghost $rlDeleteErr error
+//@ ghost $rlDeleteFailed bool
+//@ func (*OCIDir).referrerDelete(ctx, r, m) (err)
+//@   prop C06, C07
 //@   requires lock-held: $held(OCIDir.mu)
+//@   entry-assume !$rlDeleteFailed
+//@   on-call Delete: $rlDeleteErr = result
+//@   on-call Delete: $rlDeleteFailed = (result != nil)
+//@   ensures absent-entry-stays-recognisable: $rlDeleteFailed && $errIs($rlDeleteErr, errs.ErrNotFound) ==> $errIs(err, errs.ErrNotFound)
 //@ func (*OCIDir).referrerList
 //@   prop C06
 //@   requires lock-held: $held(OCIDir.mu)
